@@ -47,6 +47,7 @@ package drpchttp
 //@ func twirpRead
 //@   props C13 C14
 //@   requires r != nil
+//@   site ReadAll assert [C13.alloc-limit] bodyLen(arg0) <= 4194305
 //@   ensures [C14.reject-oversize] bodyLen(r) > 4194304 ==> result1 != nil
 //@   ensures [C14.never-truncated] result1 == nil ==> len(result0) == bodyLen(r)
 
